@@ -179,6 +179,11 @@ def plan(tier, seed):
     for cmd in ('ci', 'st', 'commit'):
         for nd in (0, 1, 2):
             tasks.append(('alias_resolve', {'cmd': cmd, 'defs': nd}))
+    # alias names are matched case-insensitively by git: typed in another case, and reached from another alias
+    for cmd in ('CI', 'St'):
+        for nd in (1, 2):
+            tasks.append(('alias_resolve', {'cmd': cmd, 'defs': nd}))
+    tasks.append(('alias_resolve', {'cmd': 'k1', 'chain': 2, 'end': 'status', 'upper_hop': True}))
     for depth in (1, 2, 3, 4, 5):
         for end in ('commit -v', 'log', 'k1', '!echo x', 'status'):
             tasks.append(('alias_resolve', {'cmd': 'k1', 'chain': depth, 'end': end}))
@@ -351,11 +356,41 @@ def run_argv(h, specs):
 
 
 def known_a1(h, toks):
-    """recorded deviation: git stops option scanning at the first help/version/query option;
-    git-ai keeps scanning and re-orders.  Class = git's scan of the USER's argv stops at such
-    a token and at least one more token follows it."""
-    ms = h.P.state.get('meta_stop_user')
-    cls = ms is not None and ms + 1 < len(toks)
+    """recorded deviation: git stops option scanning at the first help/version/query option; git-ai keeps scanning the
+    GLOBAL options that follow it and re-orders or drops them.  Class = git's scan of the USER's argv stops at such a
+    token, and either that token is a pure query (--html-path, --man-path, --info-path, --exec-path: git prints and
+    exits, git-ai drops it) or one of the tokens after it is something git-ai's global scanner acts on (a global option
+    git knows, `--`, or another help/version token).  `git --help -a` or `git --help commit` are NOT in the class."""
+    P = h.P
+    ms = P.state.get('meta_stop_user')
+    if ms is None or ms + 1 >= len(toks):
+        return [('meta-option-followed-by-more', z3.BoolVal(False))]
+    pr = probe_git()
+    kinds, eqk = pr['kinds'], pr['eq']
+    stop = toks[ms]
+    cls = False
+    # a version request drops or re-orders whatever follows it (git's `version` ignores positional arguments, so most of
+    # these are harmless natively); the pure queries are dropped themselves
+    for q in ('--html-path', '--man-path', '--info-path', '--exec-path', '--version', '-v'):
+        if s_eq(P, stop, q):
+            cls = True
+    if not cls:
+        for t in toks[ms + 1:]:
+            if len(t) == 0 or not P.branch(byte_eq(t[0], 45)):
+                continue
+            if any(s_eq(P, t, x) for x in ('--', '--help', '-h', '--version', '-v')):
+                cls = True
+                break
+            if any(len(name) == len(t) and s_eq(P, t, name) for name in kinds):
+                cls = True
+                break
+            if any(s_prefix(P, t, name + '=') for name in eqk):
+                cls = True
+                break
+            # the attached spellings git-ai's scanner also takes for the value-taking short options
+            if s_prefix(P, t, '-C') or s_prefix(P, t, '-c'):
+                cls = True
+                break
     return [('meta-option-followed-by-more', z3.BoolVal(bool(cls)))]
 
 
@@ -500,10 +535,28 @@ def install(M):
             raise Unsupported('symbolic config key')
         k = cb.decode()
         P.events.append(('config_get_str', k))
-        if k.startswith('alias.') and k[6:] in table:
-            return ok(some(pystring(table[k[6:]])))
+        # git matches configuration variable names case-insensitively
+        low = {a.lower(): v for a, v in table.items()}
+        if k.lower().startswith('alias.') and k[6:].lower() in low:
+            return ok(some(pystring(low[k[6:].lower()])))
         return ok(none())
     M.env['git::repository::Repository::config_get_str'] = config_get_str
+
+    def config_get_regexp(P, c, args, dt):
+        import re as _re
+        pat = concrete_bytes(as_bytes(args[1]))
+        if pat is None:
+            raise Unsupported('symbolic config pattern')
+        rx = _re.compile(pat.decode())
+        table = P.state.get('aliases', {})
+        P.events.append(('config_get_regexp', pat.decode()))
+        ent = []
+        for a, v in table.items():
+            key = 'alias.' + a.lower()          # keys come back lower-cased
+            if rx.search(key):
+                ent.append([pystring(key), pystring(v)])
+        return ok(MapV('hash', ent, 'map'))
+    M.env['git::repository::Repository::config_get_regexp'] = config_get_regexp
 
 
 def git_alias_reference(P, argv, table):
@@ -520,12 +573,13 @@ def git_alias_reference(P, argv, table):
             return ('other', globs, term[0])
         c = bytes(term[1]).decode()
         rest = [bytes(x).decode() for x in term[2]]
-        if c in builtins() or c not in table:
+        lowt = {a.lower(): v for a, v in table.items()}
+        if c in builtins() or c.lower() not in lowt:
             return ('run', globs, [c] + rest)
-        if c in seen:
+        if c.lower() in seen:
             return ('fatal',)
-        seen.append(c)
-        val = table[c]
+        seen.append(c.lower())
+        val = lowt[c.lower()]
         if val.startswith('!'):
             return ('shell', globs, [c] + rest)
         toks = val.split()
@@ -553,7 +607,7 @@ def ob_alias_resolve(h, shape):
         # a loop-free (or looping) chain of `chain` hops: k1 -> k2 -> ... -> end
         d = shape['chain']
         for i in range(1, d + 1):
-            val = ('k%d' % (i + 1)) + (' -q' if i == 2 else '') if i < d else shape['end']
+            val = (('K%d' if shape.get('upper_hop') else 'k%d') % (i + 1)) + (' -q' if i == 2 else '') if i < d else shape['end']
             table['k%d' % i] = val
             picks.append(['k%d' % i, val])
     P.state['aliases'] = table
